@@ -9,6 +9,7 @@
 -/
 import Pongo.Model.Exec
 import Pongo.Lemmas.GrowsAll
+import Pongo.Lemmas.IndepAll
 
 namespace Pongo.C14
 
@@ -103,5 +104,66 @@ theorem expressions_write_nothing (fuel : Nat) (e : Expr) (σ : ES) :
   have := (allGrows T cfg g fuel).eval e
   unfold Quiet at this
   exact this σ
+
+/-! ### a rendering does not depend on what the writer already holds
+
+From the interpreter-wide induction of `Lemmas/IndepAll.lean`: no function of the interpreter reads
+the output back; started with extra bytes in front of the output, every expression and node does
+exactly what it does without them. -/
+
+/-- **ExecuteWriterUnbuffered into a writer that already holds `pre`**: the same outcome, the same
+    final state, `pre` followed by the same bytes — for every template, context, state and fuel. -/
+theorem rendering_ignores_writer_contents (fuel ti : Nat) (ctx : Env) (σ : ES) (pre : Bytes) :
+    (executeTplUnbuffered T cfg g fuel ti ctx).run (pfx pre σ) =
+      shift pre ((executeTplUnbuffered T cfg g fuel ti ctx).run σ) := by
+  have := (allIndep T cfg g fuel).executeTplUnbuffered ti ctx
+  unfold Indep at this
+  exact this σ pre
+
+theorem self_pfx (σ : ES) : pfx σ.out { σ with out := [] } = σ := by
+  simp [pfx]
+
+/-- **The variants agree, in one statement**: writing straight to a writer (unbuffered) and writing
+    through the private buffer (ExecuteWriter; Execute / ExecuteBytes are that into an empty
+    buffer) leave exactly the same bytes in the writer whenever the execution succeeds … -/
+theorem variants_write_the_same (fuel ti : Nat) (ctx : Env) (σ σ1 : ES)
+    (h : (executeTplUnbuffered T cfg g fuel ti ctx).run σ = .ok () σ1) :
+    ∃ σ2, (executeTpl T cfg g (fuel + 1) ti ctx).run σ = .ok () σ2 ∧ σ2.out = σ1.out := by
+  have hr := rendering_ignores_writer_contents T cfg g fuel ti ctx { σ with out := [] } σ.out
+  rw [self_pfx] at hr
+  rw [hr] at h
+  cases he : (executeTplUnbuffered T cfg g fuel ti ctx).run { σ with out := [] } with
+  | error e s => rw [he] at h; cases h
+  | ok u s =>
+    rw [he] at h
+    simp only [shift, EStateM.Result.ok.injEq, true_and] at h
+    obtain ⟨σ2, h2, ho⟩ := variants_agree T cfg g fuel ti ctx σ s he
+    refine ⟨σ2, h2, ?_⟩
+    rw [ho, ← h]
+    simp [pfx]
+
+/-- … and whenever the unbuffered variant fails, the buffered one fails with the same error and
+    has written nothing, while what the unbuffered one wrote is what the writer held followed by
+    a leading part of the rendering. -/
+theorem variants_fail_the_same (fuel ti : Nat) (ctx : Env) (σ σ1 : ES) (e : XErr)
+    (h : (executeTplUnbuffered T cfg g fuel ti ctx).run σ = .error e σ1) :
+    ∃ σ2, (executeTpl T cfg g (fuel + 1) ti ctx).run σ = .error e σ2 ∧ σ2.out = σ.out := by
+  have hr := rendering_ignores_writer_contents T cfg g fuel ti ctx { σ with out := [] } σ.out
+  rw [self_pfx] at hr
+  rw [hr] at h
+  cases he : (executeTplUnbuffered T cfg g fuel ti ctx).run { σ with out := [] } with
+  | ok u s => rw [he] at h; cases h
+  | error e' s =>
+    rw [he] at h
+    simp only [shift, EStateM.Result.error.injEq] at h
+    obtain ⟨rfl, _⟩ := h
+    exact writer_all_or_nothing T cfg g fuel ti ctx σ s e' he
+
+/-- evaluating an expression, too, is blind to the output -/
+theorem expressions_ignore_writer_contents (fuel : Nat) (e : Expr) (σ : ES) (pre : Bytes) :
+    (eval T cfg g fuel e).run (pfx pre σ) = shift pre ((eval T cfg g fuel e).run σ) := by
+  have := (allIndep T cfg g fuel).eval e
+  unfold Indep at this
+  exact this σ pre
 
 end Pongo.C14
